@@ -101,6 +101,28 @@ CHECKS = {
              'the primary\'s set. Every configuration (two generics descriptors incl. lifetime / bounded+defaulted / const parameters and a user where-clause) is expanded and every '
              'impl item must carry exactly those parameters and predicates, and the item list must be exactly the educed traits and requested Into targets.',
         design_ref='DESIGN.md section 6 (C12)', note=TB_X),
+    'C01': dict(
+        technique='TLA+ specification of acceptability (EduceMulti.MultiAdmissible over the per-trait specs; EduceBounds headers) enumerated with TLC (MC_C01, MC_C12); every '
+                  'enumerated item compiled with the real compiler and expanded in process; per-item compile records validated by TLC against TraceK.tla',
+        text='The specification says which multi-trait requests must be accepted; TLC enumerates them (t-way attribute settings, every spelling and name pool), together with the '
+             'generic-header / bound-mode corpus and a list of special shapes; each item must be accepted by the macro and compile with the real compiler without errors or '
+             'warnings (only dead_code allowed). The single-trait, #[repr]/discriminant, Deref and Into shapes are compiled, and reported in the same way, by C02-C10 and C20.',
+        design_ref='DESIGN.md section 6 (C01)', note=TB_R + ' ' + TB_X),
+    'C18': dict(
+        technique='TLA+ gating model (EduceFeatures) over facts extracted from the source at check time, checked by TLC for all 4095 feature subsets; real cargo check per subset and '
+                  'per-subset in-process expansions against the all-features build, validated by TLC against TraceF.tla',
+        text='The cfg gates of the shared helper modules, the imports of every handler and the paired cfg(feature)/cfg(not(feature)) sites are extracted from the source and TLC '
+             'checks, for every non-empty subset, that every module an enabled handler needs is compiled in (a violation is a prediction; the real build decides). The crate is '
+             'then really built with a sample of subsets in the quick tier and all 4095 in the thorough tier (no errors, no warnings; the empty set must fail with the explicit '
+             'message), and inputs naming only enabled traits must expand exactly as in the full build while disabled traits are refused as unsupported.',
+        design_ref='DESIGN.md section 6 (C18)', note=TB_X),
+    'C19': dict(
+        technique='TLC-enumerated matrix (MC_C19: identifier pool recorded from real expansions x namespace position x shape x trait set); every item compiled with the real '
+                  'compiler inside a prelude-shadowing module and in a #![no_std] crate; compile records validated by TLC against TraceK.tla',
+        text='The specification contributes the quantifier (every identifier the expansions use internally at every position a user identifier can take) and the expectation '
+             '(accepted, compiles cleanly); it contains no model of Rust name resolution. Known findings (const parameters and bare method names that coincide with internal '
+             'bindings or prelude names) are listed in known_findings.json; any other failure is a violation.',
+        design_ref='DESIGN.md section 6 (C19), section 10', note=TB_R),
 }
 
 NOT_YET = 'check not built yet (work in progress, see DESIGN.md section 11)'
